@@ -16,29 +16,36 @@ void replace_substrings(char *buffer,
     const char *strit = input;
     const char *streit = input + inlen;
     char *bufit = buffer;
-
-    if (sublen == 0)
-    {
-        size_t len = __MIN__(maxsize - 1, inlen);
-        memcpy(buffer, input, len);
-        buffer[len] = 0;
-    }
-
+    char *bufend;
     char *finded;
-    while ((finded = igris_memmem(strit, streit - strit, sub, sublen)) != NULL)
+
+    if (maxsize == 0)
+        return;
+    bufend = buffer + maxsize - 1; /* the last byte is for the terminator */
+
+/* append at most what still fits into the buffer */
+#define APPEND_BOUNDED(src, n)                                                 \
+    do                                                                         \
+    {                                                                          \
+        size_t room = (size_t)(bufend - bufit);                                \
+        size_t cnt = (size_t)(n) < room ? (size_t)(n) : room;                  \
+        memcpy(bufit, (src), cnt);                                             \
+        bufit += cnt;                                                          \
+    } while (0)
+
+    while (sublen != 0 &&
+           (finded = igris_memmem(strit, streit - strit, sub, sublen)) != NULL)
     {
         ptrdiff_t step = finded - strit;
 
-        memcpy(bufit, strit, step);
-        bufit += step;
+        APPEND_BOUNDED(strit, step);
         strit += step;
 
-        memcpy(bufit, rep, replen);
-        bufit += replen;
+        APPEND_BOUNDED(rep, replen);
         strit += sublen;
     };
 
-    ptrdiff_t lastlen = streit - strit;
-    memcpy(bufit, strit, lastlen);
-    *(bufit + lastlen) = 0;
+    APPEND_BOUNDED(strit, streit - strit);
+    *bufit = 0;
+#undef APPEND_BOUNDED
 }
